@@ -302,6 +302,9 @@ type httpFreshness struct {
 	expiresIn    int  // seconds after Date; 0 = header absent; negative = in the past
 	hasExpires   bool
 	expiresRaw   string // when set: sent verbatim (not a valid HTTP date)
+	dateSkew     int    // the Date header lies this many seconds in the past
+	lastModified bool
+	splitCC      bool
 	age          int // Age header, -1 absent
 	lifetimeS    int // RFC 7234 4.2.1 freshness lifetime in seconds, valid when explicit
 	explicit     bool
@@ -331,7 +334,14 @@ func drawFreshness(s *simcore.Source) httpFreshness {
 		// RFC 7234 5.3: invalid dates, especially "0", are a time in the past: already expired
 		f.hasExpires, f.expiresIn, f.expiresRaw = true, -1, simcore.Pick(s, []string{"0", "-1", "never", "Thu, 99 Foo 2099 00:00:00 GMT"}, "expires-invalid")
 	}
-	// the Age header is not part of the property's quantifier (Cache-Control/Expires/Date) and is not generated
+	// the Age header is not part of the property's quantifier (Cache-Control/Expires/Date) and is not generated.
+	// Date: the answer may have been generated a while ago (a CDN or a caching proxy in front of the endpoint): its
+	// apparent age (RFC 7234 4.2.3) counts against the freshness lifetime
+	f.dateSkew = []int{0, 0, 0, 10, 3600}[s.Draw(5, "date-skew")]
+	// Last-Modified invites heuristic freshness, which heimdall documents not to calculate
+	f.lastModified = s.Draw(3, "last-modified") == 2
+	// the directives may be spread over several Cache-Control lines (a proxy adding its own)
+	f.splitCC = s.Draw(3, "split-cache-control") == 2
 	var parts []string
 	if f.noStore {
 		parts = append(parts, "no-store")
@@ -349,13 +359,24 @@ func drawFreshness(s *simcore.Source) httpFreshness {
 	if f.explicit && f.age > 0 {
 		f.lifetimeS -= f.age
 	}
+	if f.explicit {
+		f.lifetimeS -= f.dateSkew
+	}
 	return f
 }
 
 func (f httpFreshness) apply(w http.ResponseWriter) {
-	now := time.Now().UTC()
+	now := time.Now().UTC().Add(-secs(f.dateSkew))
 	w.Header().Set("Date", now.Format(http.TimeFormat))
-	if f.cacheControl != "" {
+	if f.lastModified {
+		w.Header().Set("Last-Modified", now.Add(-30*24*time.Hour).Format(http.TimeFormat))
+	}
+	if f.cacheControl != "" && f.splitCC {
+		w.Header().Add("Cache-Control", "public")
+		for _, d := range strings.Split(f.cacheControl, ", ") {
+			w.Header().Add("Cache-Control", d)
+		}
+	} else if f.cacheControl != "" {
 		w.Header().Set("Cache-Control", f.cacheControl)
 	}
 	if f.hasExpires && f.expiresRaw != "" {
@@ -369,7 +390,7 @@ func (f httpFreshness) apply(w http.ResponseWriter) {
 }
 
 func (f httpFreshness) String() string {
-	return fmt.Sprintf("cc=%q expires=%v/%d%s age=%d lifetime=%d explicit=%v", f.cacheControl, f.hasExpires, f.expiresIn, f.expiresRaw, f.age, f.lifetimeS, f.explicit)
+	return fmt.Sprintf("cc=%q(split=%v) expires=%v/%d%s date-skew=%d last-modified=%v lifetime=%d explicit=%v", f.cacheControl, f.splitCC, f.hasExpires, f.expiresIn, f.expiresRaw, f.dateSkew, f.lastModified, f.lifetimeS, f.explicit)
 }
 
 func c10RemoteScenario(r *simcore.Run, kind string) {
